@@ -6,18 +6,25 @@ props/C14.py.  Every instance gets its own op list — a random history (request
 reads, start / stop cycles), an observation sequence (state dump with call counters, common info, every channel's
 info, a stream of all its channels) or a restart sequence (stream deterministic channels, stop, start, stream
 again) — and the lists are INTERLEAVED op by op (or run one after the other: drive 0 then observe 1, drive 1 then
-observe 0).
+observe 0).  LATE CONSTRUCTION (review finding S2): about a third of the instances are not constructed up-front but by an
+op `<k>n` placed after ops of other instances — a default or custom device created while / after others were configured,
+streamed and restarted (model: `World.newDefault` / `newCustom` on the heap those ops left; theorems
+`default_objects_pristine`, `late_default_is_fresh`, `late_default_observes_like_first`).
 impl = transcript, compared with the model of the instances over one heap (`lean/NxsModel/Dummy.lean`).
-oracle (independent of the model): for EVERY instance, what it lets a client observe in the interleaved history must
-be exactly what it lets it observe when only its own ops are run (the other instances created but never touched);
-after stop(); start() every deterministic channel starts its sequence again — including user-defined functions of
-the call index `DeviceChannel.data_get` passes to `IDeviceChannelFunc.get(cntr)` (finding F19), and the triangle
-wave restarted while falling (batches of more than 1000 rounds).
+oracle (independent of the model, and of dummy.py's content — see props/C14.py):
+ * for EVERY instance, what it lets a client observe in the interleaved history must be exactly what it lets it observe
+   when only its own ops are run (the other instances created up-front but never touched, late ones never created);
+ * every DEFAULT instance, whenever it was constructed, is defined (channels, types, names, generator classes, nothing
+   enabled, dividers 0) like the default device of a fresh interpreter (key `default-not-pristine`);
+ * after stop(); start() every deterministic channel starts its sequence again = the sequence of a fresh object of its
+   generator class — including user-defined functions of the call index `DeviceChannel.data_get` passes to
+   `IDeviceChannelFunc.get(cntr)` (finding F19), and the triangle wave restarted while falling (batches of more than 1000
+   rounds).
 
 Not covered (accepted exclusions, see props/C14.py): values of the random generators (process-global `random`:
 compared by structure only, so independence is not claimed for their VALUES); what survives a restart is what
 `stop()` leaves: one queued item of each queue is dropped, other stale frames / queued writes, enable flags, dividers
-and the stream-started flag stay.
+and the stream-started flag stay; schedules (thread iterations are atomic).
 """
 from common import Prop, hexs
 from props import C14 as L
@@ -115,7 +122,7 @@ def inst_ops(rng, d, k, role, length):
     return ops
 
 
-def gen_multi_history(rng, defs, length):
+def gen_multi_history(rng, defs, length, late_ok=True):
     """every instance gets a role; the op lists are interleaved, or run one after the other in a random order"""
     n = len(defs)
     driven = rng.randrange(n)
@@ -126,16 +133,32 @@ def gen_multi_history(rng, defs, length):
         else:
             roles.append(rng.choice(["observe", "observe", "restart", "drive"]))
     lists = [inst_ops(rng, defs[k], k, roles[k], length if roles[k] == "drive" else None) for k in range(n)]
+    # LATE CONSTRUCTION: some instances are not constructed up-front but by an `n` op placed after ops of other instances
+    # (a device created while / after others were driven); not the instances a shared-list device refers to
+    bases = {d["alias"] for d in defs if d["kind"] == "A"}
+    late = [k for k in range(n) if late_ok and k not in bases and defs[k]["kind"] != "A" and rng.random() < 0.35]
+    if len(late) == n:
+        late.remove(rng.choice(late))
     mode = rng.random()
     if mode < 0.6:
         ops = interleave(rng, lists)
+        for k in late:
+            first = min(i for i, o in enumerate(ops) if o[0] == str(k))
+            ops.insert(rng.randrange(first // 2, first + 1), f"{k}n")
     else:
         order = list(range(n))
         rng.shuffle(order)          # drive 0 then observe 1, or drive 1 then observe 0, ...
-        ops = [o for k in order for o in lists[k]]
+        if late and order[0] in late and len(order) > 1:
+            order.append(order.pop(0))           # somebody has to be driven before a late instance is constructed
+        ops = []
+        for k in order:
+            if k in late:
+                ops.insert(rng.randrange(len(ops) * 2 // 3, len(ops) + 1), f"{k}n")
+            ops += lists[k]
         if rng.random() < 0.5:      # a look at a later instance in the middle of an earlier one's history
             k = order[-1]
-            ops.insert(rng.randrange(1, len(ops)), f"{k}d")
+            if k not in late:
+                ops.insert(rng.randrange(1, len(ops)), f"{k}d")
     return ops
 
 
@@ -160,10 +183,12 @@ class C16(Prop):
             "random history (requests in every form, junk, stream steps, reads, start / stop cycles, 5..45 ops), an observation "
             "sequence (state dump with call counters, common info, channel info of its channels, a stream of all its channels) "
             "or a restart sequence with deterministic channels — and the lists are interleaved op by op or run one after the "
-            "other in a random order; targeted: restarts after batches of 300..10001 rounds that cross the periods of every "
+            "other in a random order; about a third of the instances are constructed LATE (op `n`, after ops of other instances: a "
+            "device created while others are configured / streaming / restarted); targeted: restarts after batches of 300..10001 rounds that cross the periods of every "
             "default generator (triangle wave restarted while falling), user-defined functions of the call index (F19); every "
             "token compared with the model of the instances over one heap; oracle: the observations of EVERY instance equal "
-            "those of its own ops run alone, and the deterministic channels begin their sequence again after stop/start; "
+            "those of its own ops run alone, every default instance is defined like the default device of a fresh interpreter, and "
+            "the deterministic channels begin their sequence (that of a fresh generator object) again after stop/start; "
             "distinct = distinct line; non-trivial = line with at least one stream frame")
     assumptions = ["virtual-time runtime (harness/vsim.py) preserves queue / lock / event / thread semantics",
                    "thread iterations are atomic (method granularity)",
@@ -197,10 +222,18 @@ class C16(Prop):
         # restart of the default device: channels 1, 2, 6, 7 begin again
         out.append("dummy run D,3,16,3 " + ";".join(
             ["0a", f"0w{enall}", "0R", "0r", f"0w{start}", "0R", "0r", "0S", "0r", "0S", "0r", "0z", "0r", "0a", "0S", "0r", "0S", "0r", "0d"]))
-        # a device created while another is already streaming gets fresh defaults
+        # a device STARTED while another is already streaming
         out.append("dummy run D,3,0,1+D,3,0,1 " + ";".join(
             ["0a", f"0w{enall}", "0R", "0r", f"0w{start}", "0R", "0r", "0S", "0r", "0S", "0r", "1a", "1d", f"1w{enall}", "1R", "1r",
              f"1w{start}", "1R", "1r", "1S", "1r", "0S", "0r", "1d"]))
+        # a device CREATED (`1n`) while another is already configured and streaming gets fresh defaults; a third one created
+        # after the second was driven and the first restarted; then a custom device created last
+        out.append("dummy run D,3,0,1+D,3,0,1+D,1,8/4,2+C,3,0,2,7.1.0.11.1.0.69:10.1.0.2.1.0.2078 " + ";".join(
+            ["0a", f"0w{enall}", "0R", "0r", f"0w{div}", "0R", "0r", f"0w{start}", "0R", "0r", "0S", "0r", "0S", "0r", "1n", "1d", "1a",
+             f"1w{cmn}", "1R", "1r", f"1w{ch1}", "1R", "1r", f"1w{enall}", "1R", "1r", f"1w{start}", "1R", "1r", "1S", "1r", "0S", "0r",
+             "0z", "0a", "2n", "2a", "2d", f"2w{ch1}", "2R", "2r", f"2w{en1}", "2R", "2r", f"2w{start}", "2R", "2r", "2S", "2r", "2S",
+             "2r", "3n", "3a", "3d", f"3w{start}", "3R", "3r", "3S", "3r", "1S", "1r", "0d", "1d", "2d", "3d"]))
+        out.append(L.late_default_line())
         # drive 1, then observe 0 (the other direction), three instances, the third never started
         out.append("dummy run D,3,16,2+D,1,0,3+D,3,8,1 " + ";".join(
             ["1a", f"1w{enall}", "1R", "1r", f"1w{div}", "1R", "1r", f"1w{start}", "1R", "1r", "1S", "1r", "1S", "0a", "0d", f"0w{cmn}", "0R", "0r",
@@ -250,6 +283,26 @@ class C16(Prop):
         for k, d in enumerate(defs):
             if d["kind"] == "A":
                 shared |= {k, d["alias"]}
+        # "created with the default channel set": every default instance — whenever it was constructed, whatever happened to
+        # other instances before — is defined like the default device of a fresh interpreter (nothing enabled, dividers 0, the
+        # same channels and generator classes)
+        fresh = L.Fresh.default_device()
+        for k, d in enumerate(defs):
+            snap = info["snap"][k]
+            if d["kind"] == "D" and snap is not None and (snap["chmax"] != fresh["chmax"] or snap["chans"] != fresh["chans"]):
+                bad = [(i, a, b) for i, (a, b) in enumerate(zip(snap["chans"], fresh["chans"])) if a != b][:1]
+                return {"key": "default-not-pristine",
+                        "what": f"default instance {k} was not created with the default channel set: its definition at construction "
+                                f"differs from that of a default device in a fresh interpreter (first difference: channel {bad[0][0] if bad else '-'})",
+                        "expected": str(bad[0][2] if bad else fresh["chmax"])[:200], "observed": str(bad[0][1] if bad else snap["chmax"])[:200]}
+        J = L.Judge(defs, info, ops)
+
+        def canon(k, tok):
+            """values of channels whose generator class is not deterministic (process-global `random`) are not compared"""
+            I = J.insts[k]
+            if not tok.startswith("S") or I is None:
+                return tok
+            return "S" + L.mask_stream(bytes.fromhex(tok[1:]), I["chans"], lambda c: not J.deterministic(c)).hex()
         touched = sorted({int(o[0]) for o in ops})
         if len(touched) > 1:
             for k in touched:
@@ -262,11 +315,16 @@ class C16(Prop):
                     return {"key": "device-hangs", "what": f"instance {k} alone does not run: {e}", "expected": "-", "observed": "-"}
                 got = [t for o, t in zip(ops, out) if o[0] == str(k)]
                 for idx, (o, x, y) in enumerate(zip(kops, got, kout)):
-                    if x != y:
+                    cx, cy = canon(k, x), canon(k, y)
+                    if cx != cy:
+                        # (tokens as compared: values of non-deterministic channels zeroed; a window at the first difference)
+                        at = next((i for i, (a, b) in enumerate(zip(cx, cy)) if a != b), min(len(cx), len(cy)))
+                        lo = max(0, at - 40)
                         return {"key": "instances-share-state",
                                 "what": f"what instance {k} lets a client observe depends on what was done to the other instance(s) "
-                                        f"(its op {idx} `{o[:30]}`)",
-                                "expected": f"{y[:160]}  (other instances never touched)", "observed": x[:160], "ops_on_it": kops}
+                                        f"(its op {idx} `{o[:30]}`, token differs at character {at})",
+                                "expected": f"{'…' if lo else ''}{cy[lo:at + 80]}  (other instances never touched)",
+                                "observed": f"{'…' if lo else ''}{cx[lo:at + 80]}", "ops_on_it": kops}
         # restart: deterministic channels begin their sequence again (and the rest of C14 on every instance)
         v = L.judge(defs, ops, out, info)
         if v and v["key"] in ("generator-order", "stream-order"):
